@@ -1,6 +1,7 @@
 package symgo
 
 import (
+	"fmt"
 	"go/types"
 	"sort"
 	"strings"
@@ -158,6 +159,11 @@ func (in *Interp) installEnvStubs() {
 		return func(in *Interp, fn *ssa.Function, a []Value) Value {
 			p := concretePath(in, a[0])
 			fs := in.fsState()
+			if _, isFile := in.files[p]; isFile {
+				delete(in.files, p)
+				in.fsRemoved = append(in.fsRemoved, p)
+				return IfaceV{}
+			}
 			if !fs.dirs[p] {
 				if all {
 					return IfaceV{}
@@ -170,6 +176,11 @@ func (in *Interp) installEnvStubs() {
 					hasChild = true
 				}
 			}
+			for f := range in.files {
+				if strings.HasPrefix(f, p+"/") {
+					hasChild = true
+				}
+			}
 			if hasChild && !all {
 				return in.newErrorString("remove " + p + ": directory not empty")
 			}
@@ -177,6 +188,11 @@ func (in *Interp) installEnvStubs() {
 			for d := range fs.dirs {
 				if d == p || strings.HasPrefix(d, p+"/") {
 					delete(fs.dirs, d)
+				}
+			}
+			for f := range in.files {
+				if strings.HasPrefix(f, p+"/") {
+					delete(in.files, f)
 				}
 			}
 			return IfaceV{}
@@ -242,3 +258,198 @@ type shardHandle struct {
 	open  bool
 	users int
 }
+
+// ---- files (C14 shard transfer): a file is a byte sequence with symbolic content; handles
+// read sequentially or append.
+type fileObj struct{ data []*Term }
+
+type fileHandle struct {
+	path   string
+	pos    int
+	append bool
+	closed bool
+}
+
+func (in *Interp) installFileStubs() {
+	S := in.stubs
+	cpath := func(in *Interp, v Value) string {
+		s, ok := v.(StrV).concrete()
+		if !ok {
+			in.abort("unsupported", "file path with symbolic bytes")
+		}
+		return s
+	}
+	parentExists := func(in *Interp, p string) bool {
+		i := strings.LastIndex(p, "/")
+		if i <= 0 {
+			return true
+		}
+		return in.fsState().dirs[p[:i]]
+	}
+	newHandle := func(in *Interp, fn *ssa.Function, h *fileHandle) Value {
+		l := &Loc{v: BVu(8, 0)}
+		in.fileHandles[l] = h
+		return PtrV{loc: l}
+	}
+	S["os.Open"] = func(in *Interp, fn *ssa.Function, a []Value) Value {
+		p := cpath(in, a[0])
+		if _, ok := in.files[p]; !ok {
+			return TupleV{[]Value{PtrV{}, in.notExistErr()}}
+		}
+		return TupleV{[]Value{newHandle(in, fn, &fileHandle{path: p}), IfaceV{}}}
+	}
+	S["os.OpenFile"] = func(in *Interp, fn *ssa.Function, a []Value) Value {
+		p := cpath(in, a[0])
+		flag := a[1].(*Term)
+		if !flag.IsConst() {
+			in.abort("unsupported", "OpenFile with symbolic flags")
+		}
+		f := flag.Int()
+		const oAppend, oCreate, oTrunc = 0x400, 0x40, 0x200
+		if _, ok := in.files[p]; !ok {
+			if f&oCreate == 0 || !parentExists(in, p) {
+				return TupleV{[]Value{PtrV{}, in.notExistErr()}}
+			}
+			in.files[p] = &fileObj{}
+		}
+		if f&oTrunc != 0 {
+			in.files[p].data = nil
+		}
+		return TupleV{[]Value{newHandle(in, fn, &fileHandle{path: p, append: f&oAppend != 0}), IfaceV{}}}
+	}
+	handle := func(in *Interp, v Value) *fileHandle {
+		p, ok := v.(PtrV)
+		if !ok || p.loc == nil {
+			in.abort("panic", "nil *os.File")
+		}
+		h := in.fileHandles[p.loc]
+		if h == nil {
+			in.abort("unsupported", "unknown file handle")
+		}
+		return h
+	}
+	S["(*os.File).Close"] = func(in *Interp, fn *ssa.Function, a []Value) Value {
+		h := handle(in, a[0])
+		if h.closed {
+			return in.newErrorString("file already closed")
+		}
+		h.closed = true
+		return IfaceV{}
+	}
+	S["(*os.File).Read"] = func(in *Interp, fn *ssa.Function, a []Value) Value {
+		h := handle(in, a[0])
+		buf := a[1].(SliceV)
+		f := in.files[h.path]
+		if h.closed || f == nil {
+			return TupleV{[]Value{BVi(64, 0), in.newErrorString("read of closed or removed file")}}
+		}
+		n := len(f.data) - h.pos
+		if n <= 0 {
+			return TupleV{[]Value{BVi(64, 0), in.eofErr()}}
+		}
+		if n > buf.n {
+			n = buf.n
+		}
+		for i := 0; i < n; i++ {
+			buf.arr[buf.off+i].set(f.data[h.pos+i])
+		}
+		h.pos += n
+		return TupleV{[]Value{BVi(64, int64(n)), IfaceV{}}}
+	}
+	S["(*os.File).Write"] = func(in *Interp, fn *ssa.Function, a []Value) Value {
+		h := handle(in, a[0])
+		f := in.files[h.path]
+		if h.closed || f == nil {
+			return TupleV{[]Value{BVi(64, 0), in.newErrorString("write to closed or removed file")}}
+		}
+		data := sliceBytes(a[1].(SliceV))
+		if h.append {
+			f.data = append(f.data, data...)
+		} else {
+			for i, b := range data {
+				if h.pos+i < len(f.data) {
+					f.data[h.pos+i] = b
+				} else {
+					f.data = append(f.data, b)
+				}
+			}
+			h.pos += len(data)
+		}
+		return TupleV{[]Value{BVi(64, int64(len(data))), IfaceV{}}}
+	}
+	S["path/filepath.Walk"] = func(in *Interp, fn *ssa.Function, a []Value) Value {
+		root := cpath(in, a[0])
+		f := a[1].(FuncV)
+		var paths []string
+		for d := range in.fsState().dirs {
+			if d == root || strings.HasPrefix(d, root+"/") {
+				paths = append(paths, d)
+			}
+		}
+		for p := range in.files {
+			if strings.HasPrefix(p, root+"/") {
+				paths = append(paths, p)
+			}
+		}
+		sort.Strings(paths)
+		for _, p := range paths {
+			r := in.call(f.fn, []Value{strConst(p), IfaceV{}, IfaceV{}}, f.binds).(IfaceV)
+			if r.t != nil {
+				return r
+			}
+		}
+		return IfaceV{}
+	}
+	in.intrinsics["vwritefile"] = func(in *Interp, args []Value) Value {
+		p, _ := args[0].(StrV).concrete()
+		fs := in.fsState()
+		d := p
+		for {
+			i := strings.LastIndex(d, "/")
+			if i <= 0 {
+				break
+			}
+			d = d[:i]
+			fs.dirs[d] = true
+		}
+		in.files[p] = &fileObj{data: sliceBytes(args[1].(SliceV))}
+		return nil
+	}
+	in.intrinsics["vreadfile"] = func(in *Interp, args []Value) Value {
+		p, _ := args[0].(StrV).concrete()
+		f, ok := in.files[p]
+		if !ok {
+			return TupleV{[]Value{SliceV{isNil: true}, Bool(false)}}
+		}
+		return TupleV{[]Value{bytesSlice(f.data), Bool(true)}}
+	}
+	// content checksum: an uninterpreted function of (length, content) that is injective on the
+	// contents hashed along one path (no 64-bit collisions)
+	in.intrinsics["vcontenthash"] = func(in *Interp, args []Value) Value {
+		data := sliceBytes(args[0].(SliceV))
+		if len(data) == 0 {
+			return BVu(64, 0xef46db3751d8e999)
+		}
+		var cat *Term
+		for _, b := range data {
+			if cat == nil {
+				cat = b
+			} else {
+				cat = Concat(cat, b)
+			}
+		}
+		h := UF(fmt.Sprintf("filehash%d", len(data)), 64, cat)
+		for _, prev := range in.hashedContents {
+			if prev.cat.w == cat.w {
+				in.addPC(Or(Not(Eq(prev.h, h)), Eq(prev.cat, cat)))
+			} else {
+				in.addPC(Not(Eq(prev.h, h)))
+			}
+		}
+		in.addPC(Not(Eq(h, BVu(64, 0xef46db3751d8e999))))
+		in.hashedContents = append(in.hashedContents, hashedContent{cat, h})
+		return h
+	}
+}
+
+type hashedContent struct{ cat, h *Term }
